@@ -36,6 +36,10 @@ def run(chk: Check) -> None:
              and set(v["queue"]) & {"pixee:python/url-sandbox", "pixee:python/sandbox-process-creation", "pixee:python/use-defusedxml", "pixee:python/harden-pickle-load"}]
     selfm.sort(key=runspace.vkey)
     sample += [v for v in selfm if v not in sample][: chk.pick(16, 200)]
+    # mixed line endings (first line CRLF, the rest LF): what is on disk must still be what the diff says
+    mx = [v for v in vectors if v["layout"] == "mixedeol" and not v["dryRun"] and v["workers"] == 1 and len(v["queue"]) == 1]
+    mx.sort(key=runspace.vkey)
+    sample += [v for v in mx if v not in sample][: chk.pick(10, 80)]
     scenarios = [runspace.scenario_for(v, f"C03-{i}") for i, v in enumerate(sample)]
     for scn, res, verdicts in runspace.run_and_validate(chk, scenarios):
         v = scn["_v"]
